@@ -83,6 +83,9 @@ struct Obs
 
 using PacketRef = std::shared_ptr<void>;
 
+// called right before every library API call made through this adapter (C20: stack scribbler)
+void setPreCallHook(void (*hook)());
+
 Obs observe(const PacketRef& p, bool typedViews = true);
 // digest over every getter and payload byte (used to prove a packet owns its data)
 uint64_t digest(const PacketRef& p);
